@@ -1,4 +1,4 @@
-"""C07 -- parallel_pipeline: ordered serial stages, bounded tokens, each item exactly once (token buffer)."""
+"""C07 -- parallel_pipeline: ordered serial stages, bounded tokens, each item exactly once (token buffer, stage machine, token census, filter chain)."""
 import os
 import sys
 import re
@@ -7,10 +7,16 @@ sys.path.insert(0, os.path.join(HERE, '..'))
 sys.path.insert(0, os.path.join(HERE, '..', '..', 'tools'))
 import common
 import native
-from cxx2c import Rewriter, CClass, slice_block, tag_loops, ExtractionBreak, load
+import cxx2c
+from cxx2c import Rewriter, CClass, slice_block, tag_loops, ExtractionBreak, load, c_residue
 from prove import Job
 
 PP = 'src/tbb/parallel_pipeline.cpp'
+
+
+def _gt_space(names):
+    """`a>member` -> `a> member` (white space only): the class converter does not recognise a bare member name that directly follows `>`"""
+    return (r'(?<!-)>(?=(?:%s)\b)' % '|'.join(names), '> ', 0)
 
 
 def extract(ctx):
@@ -37,15 +43,16 @@ def extract(ctx):
     t = tag_loops(t, 'grow', rw, expect=3)
     grow = t
     M = ['grow']
-    PRE = [(r'spin_mutex::scoped_lock lock\( array_mutex \);', 'LOCK_HELD();', 1), (r'ITT_NOTIFY\([^;]*\);', 'RG_NOP();', 1)]
+    PRE = [(r'spin_mutex::scoped_lock lock\( array_mutex \);', 'LOCK_HELD();', 1), (r'ITT_NOTIFY\([^;]*\);', 'RG_NOP();', 1),
+           _gt_space(['array_size', 'array', 'low_token', 'high_token', 'is_ordered'])]
     t = ib.convert(ib.method(r'bool try_put_token\( task_info& info \)'), 'input_buffer_try_put_token', methods=M,
                    pre=PRE + [(r'= info;', '= *info;', 1)], fcast=['long'])
     t = rw.sub(t, r'\(long\)\(token-self->low_token\)', '((long)(token-self->low_token))', 0)
     t = rw.sub(t, r'^bool input_buffer_try_put_token\(struct input_buffer\* self, task_info\* info\)', 'bool input_buffer_try_put_token(struct input_buffer* self, task_info* info)\nCONTRACT_put', 1, 1, name='contract-anchor')
     put = t
     t = ib.convert(ib.method(r'void try_to_spawn_task_for_next_token\(StageTask& spawner, d1::execution_data& ed\)'), 'input_buffer_try_to_spawn_task_for_next_token',
-                   pre=PRE + [(r'task_info& item = array\[', 'task_info* item = &array[', 1), (r'wakee = item;', 'wakee = *item;', 1), (r'item\.is_valid', 'item->is_valid', 1),
-                              (r'spawner\.spawn_stage_task\(wakee, ed\);', 'STUB_spawn_stage_task(&wakee);', 1)])
+                   pre=PRE + [(r'task_info& item = array\[', 'task_info* item = &array[', 1), (r'wakee = item;', 'wakee = *item;', 0), (r'item\.is_valid', 'item->is_valid', 0),
+                              (r'spawner\.spawn_stage_task\(wakee, ed\);', 'STUB_spawn_stage_task(&wakee);', 0)])
     t = rw.sub(t, r'StageTask\* spawner, d1::execution_data\* ed\)', 'int spawner_unused)\nCONTRACT_next', 1, 1, name='bind-template(StageTask) + contract-anchor')
     nxt = t
     t = ib.convert(ib.method(r'Token get_ordered_token\(\)'), 'input_buffer_get_ordered_token')
@@ -54,9 +61,286 @@ def extract(ctx):
     t = ib.convert(s, 'input_buffer_ctor', methods=M, skip_init=['end_of_input_tls', 'end_of_input_tls_allocated'])
     ctor = t
     common.write(ctx, 'ib.inc', '\n'.join([grow, put, nxt, got, ctor]))
+    # second instantiation of the release method: StageTask := stage_task, the spawner's real spawn_stage_task is called (jobs stage.release*)
+    t = ib.convert(ib.method(r'void try_to_spawn_task_for_next_token\(StageTask& spawner, d1::execution_data& ed\)'), 'input_buffer_try_to_spawn_task_for_next_token',
+                   pre=PRE + [(r'task_info& item = array\[', 'task_info* item = &array[', 1), (r'wakee = item;', 'wakee = *item;', 0), (r'item\.is_valid', 'item->is_valid', 0),
+                              (r'spawner\.spawn_stage_task\(wakee, ed\);', 'stage_task_spawn_stage_task(spawner, &wakee, ed);', 0)])
+    t = rw.sub(t, r'StageTask\* spawner, d1::execution_data\* ed\)', 'struct stage_task* spawner, execution_data* ed)', 1, 1, name='bind-template(StageTask := stage_task)')
+    common.write(ctx, 'ib_got.inc', got)
+    common.write(ctx, 'ib_stage.inc', t)
     sliced += ib.sliced
     fired['input_buffer'] = rw.fired
+    st, pl, bf = extract_stage(ctx, sliced, fired)
+    extract_filters(ctx, sliced, fired, bf)
     return sliced, fired
+
+
+PF = 'include/oneapi/tbb/detail/_pipeline_filters.h'
+PH = 'include/oneapi/tbb/parallel_pipeline.h'
+
+
+def _proto(t):
+    return re.sub(r'\s*\n\s*CONTRACT_\w+', '', t[:t.index('{')]).strip() + ';\n'
+
+
+def extract_stage(ctx, sliced, fired):
+    """stage_task (the per-item stage machine), pipeline (add_filter / fill_pipeline / parallel_pipeline / set_end_of_input) and the
+    base_filter mode predicates, converted to C.  Callees outside the pipeline (r1::spawn, small_object_allocator, wait_context, the
+    filter bodies, TLS) become STUB_* calls; the two input_buffer methods are called through STUB_try_put_token /
+    STUB_try_to_spawn_task_for_next_token, whose models are the post-conditions the ib.* jobs prove."""
+    rw = Rewriter('stage_task')
+    # ---- base_filter: mode bits and predicates (header) ----
+    bf = CClass(PF, r'class base_filter\s*\{', 'base_filter', rw=rw,
+                tbind={'base_filter*': 'struct base_filter*', 'r1::input_buffer*': 'struct input_buffer*', 'r1::pipeline*': 'struct pipeline*'})
+    bf.harvest_members(['next_filter_in_pipeline', 'my_input_buffer', 'my_filter_mode', 'my_pipeline'])
+    consts = []
+    for nm in ('filter_is_serial', 'filter_is_out_of_order', 'filter_may_emit_null'):
+        m = re.search(r'static constexpr\s+unsigned int %s = ([^;]+);' % nm, bf.text)
+        if not m:
+            raise ExtractionBreak('base_filter::%s not found' % nm)
+        consts.append('#define %s ((unsigned int)(%s))\n' % (nm, m.group(1)))   # namespace-scope constants must be macros (a static const is NONDET in CBMC's C mode)
+    rw.fired['mode-constant -> #define'] = 3
+    preds = [bf.convert(bf.method(r'bool is_serial\(\) const'), 'base_filter_is_serial', fcast=['bool']),
+             bf.convert(bf.method(r'bool is_ordered\(\) const'), 'base_filter_is_ordered'),
+             bf.convert(bf.method(r'bool object_may_be_null\(\)'), 'base_filter_object_may_be_null')]
+    nip = bf.convert(bf.method(r'static base_filter\* not_in_pipeline\(\)'), 'base_filter_not_in_pipeline', ret='struct base_filter*',
+                     pre=[(r'std::intptr_t\(-1\)', '((intptr_t)(-1))', 1)])
+    nip = rw.sub(nip, r'\(\(base_filter\*\)', '((struct base_filter*)', 1, name='type-tag')
+    # ---- pipeline ----
+    pl = CClass(PP, r'class pipeline \{', 'pipeline', rw=rw,
+                tbind={'task_group_context&': 'struct tgc*', 'd1::base_filter*': 'struct base_filter*', 'd1::wait_context': 'wait_context',
+                       'd1::base_filter': 'struct base_filter', 'd1::filter_node': 'struct filter_node', 'd1::task_group_context': 'struct tgc'})
+    pl.harvest_members(['my_context', 'first_filter', 'last_filter', 'input_tokens', 'end_of_input', 'wait_ctx'])
+    # ---- stage_task ----
+    st = CClass(PP, r'class stage_task : public d1::task, public task_info \{', 'stage_task', rw=rw,
+                tbind={'pipeline&': 'struct pipeline*', 'd1::base_filter*': 'struct base_filter*', 'd1::base_filter': 'struct base_filter',
+                       'd1::small_object_allocator': 'small_object_allocator', 'd1::execution_data': 'execution_data', 'task': 'struct stage_task'})
+    st.harvest_members(['my_pipeline', 'my_filter', 'm_allocator', 'my_at_start'])
+    st.members.insert(0, ('task_info', 'base', ''))      # base class sub-object task_info (initialised before the members, as in C++)
+    rw.fired['base-class task_info -> leading member `base`'] = 1
+    decl = ''.join(consts) + bf.struct_decl() + pl.struct_decl() + st.struct_decl()
+    common.write(ctx, 'stage_struct.inc', decl)
+
+    PRE = [(r'ITT_NOTIFY\([^;]*\);', 'RG_NOP();', 0),
+           _gt_space(['my_pipeline', 'my_filter', 'my_at_start', 'my_object', 'my_token', 'my_token_ready', 'first_filter', 'last_filter', 'input_tokens', 'end_of_input']),
+           (r'\bmy_pipeline\.', 'my_pipeline->', 0),                                       # reference member -> pointer member
+           (r'm_allocator = alloc;', 'm_allocator = *alloc;', 0),                          # reference parameter copied into the member
+           (r'task_info::reset\(\);', 'task_info_reset(&base);', 0),
+           (r'(?<![\w.>])(my_object|my_token_ready|my_token)\b', r'base.\1', 0),             # members inherited from task_info
+           (r'd1::small_object_allocator alloc\{\};', 'small_object_allocator alloc = {0};', 0),
+           (r'd1::base_filter\*', 'struct base_filter*', 0),
+           (r'alloc\.new_object<stage_task>\(\s*ed,\s*([^,();]+),\s*alloc\s*\)', r'NEW_input_stage_task(ed, \1, &alloc)', 0),
+           (r'alloc\.new_object<stage_task>\(\s*ed,\s*([^,();]+),\s*([^,();]+),\s*([^,();]+),\s*alloc\s*\)', r'NEW_item_stage_task(ed, \1, \2, \3, &alloc)', 0),
+           (r'r1::spawn\( \*(NEW_input_stage_task\([^;]*\)), my_pipeline->my_context \);', r'STUB_spawn(\1, my_pipeline->my_context);', 0),
+           (r'r1::spawn\(\*clone, my_pipeline->my_context\);', 'STUB_spawn(clone, my_pipeline->my_context);', 0),
+           (r'stage_task\* clone =', 'struct stage_task* clone =', 0),
+           (r'my_pipeline->wait_ctx\.(reserve|release)\(\);', r'STUB_wait_\1(&my_pipeline->wait_ctx);', 0),
+           (r'm_allocator\.delete_object\(this, ed\);', 'STUB_delete_object(&m_allocator, self, ed);', 0),
+           (r'return this;', 'return self;', 0),
+           (r'(\w+)->finalize\(base\.my_object\);', r'STUB_filter_finalize(\1, base.my_object);', 0),
+           (r'\(\*(\w+)\)\(base\.my_object\)', r'STUB_filter_call(\1, base.my_object)', 0),
+           (r'(?<![\w.>])(\w+)->(is_serial|is_ordered|object_may_be_null)\(\)', r'base_filter_\2(\1)', 0),
+           (r'(?<![\w.>])(\w+)->my_input_buffer->get_ordered_token\(\)', r'STUB_get_ordered_token(\1->my_input_buffer)', 0),
+           (r'(?<![\w.>])(\w+)->my_input_buffer->my_tls_end_of_input\(\)', r'STUB_my_tls_end_of_input(\1->my_input_buffer)', 0),
+           (r'(?<![\w.>])(\w+)->my_input_buffer->try_to_spawn_task_for_next_token\(\*this, ed\);', r'STUB_try_to_spawn_task_for_next_token(\1->my_input_buffer, self, ed);', 0),
+           (r'(?<![\w.>])(\w+)->my_input_buffer->try_put_token\(\*this\)', r'STUB_try_put_token(\1->my_input_buffer, &base)', 0)]
+    M = ['execute_filter', 'try_spawn_stage_task', 'finalize', 'reset']
+    proved = []      # extents (in parallel_pipeline.cpp) of the functions whose atomic sites carry the guarantee
+
+    def keep(sl):
+        proved.append(sl)
+        return sl
+
+    def atom(t, fn):
+        t = rw.atomics(t, ['input_tokens', 'end_of_input'], 0)
+        return rw.number_sites(t, fn, by_kind=True)
+
+    def cv(cls, sl, cfn, **kw):
+        t = cls.convert(sl, cfn, pre=kw.pop('pre', PRE), **kw)
+        t = re.sub(r'\)\s*override\s*\{', ') {', t, 1)
+        t = re.sub(r'(\(struct stage_task\* self, )pipeline\* pipeline\b', r'\1struct pipeline* pipeline', t, 1)    # parameter `pipeline& pipeline`: type tag
+        return t
+    out = []
+
+    def sm(sig, cfn, short, ctor=False, pre_text=None):
+        sl = keep(st.method(sig, ctor=ctor))
+        if pre_text:
+            sl.text = pre_text(sl.text)
+        return atom(cv(st, sl, cfn, methods=M), short)
+    out.append(sm(r'void try_spawn_stage_task\(d1::execution_data& ed\)', 'stage_task_try_spawn_stage_task', 'tsst'))
+    out.append(sm(r'stage_task\(pipeline& pipeline, d1::small_object_allocator& alloc \)', 'stage_task_ctor_input', 'ctor1', ctor=True))
+    out.append(sm(r'stage_task\(pipeline& pipeline, d1::base_filter\* filter, const task_info& info, d1::small_object_allocator& alloc\)', 'stage_task_ctor_item', 'ctor2', ctor=True,
+                  pre_text=lambda x: rw.sub(x, r'\btask_info\(info\)', 'base(*info)', 0, name='base-class initialiser -> member `base`')))
+    out.append(sm(r'void reset\(\)', 'stage_task_reset', 'reset'))
+    out.append(sm(r'void finalize\(d1::execution_data& ed\)', 'stage_task_finalize', 'fin'))
+    out.append(sm(r'task\* execute\(d1::execution_data& ed\) override', 'stage_task_execute', 'exec'))
+    out.append(sm(r'task\* cancel\(d1::execution_data& ed\) override', 'stage_task_cancel', 'cancel'))
+    out.append(sm(r'~stage_task\(\) override', 'stage_task_dtor', 'dtor'))
+    out.append(sm(r'void spawn_stage_task\(const task_info& info, d1::execution_data& ed\)', 'stage_task_spawn_stage_task', 'sst'))
+    xf = slice_block(PP, r'bool stage_task::execute_filter\(d1::execution_data& ed\)')
+    sliced.append('%s:%d stage_task::execute_filter' % (PP, xf.line))
+    keep(xf)
+    xf.text = rw.sub(xf.text, r'bool stage_task::execute_filter\(', 'bool execute_filter(', 1, 1, name='sig')
+    out.append(atom(cv(st, xf, 'stage_task_execute_filter', methods=M), 'xf'))
+
+    # ---- pipeline: constructor, add_filter, fill_pipeline; parallel_pipeline(); set_end_of_input() ----
+    PPRE = PRE + [(r'wait_ctx = (\w+);', r'STUB_wait_init(&wait_ctx, \1);', 0),
+                  (r'fill_pipeline\(\*root\.(left|right)\);', r'REC_fill_pipeline(self, root->\1);', 0),       # filter_node_ptr::operator* on a child; recursive call
+                  (r'add_filter\(\*root\.create_filter\(\)\);', 'pipeline_add_filter(self, STUB_create_filter(root));', 0),
+                  (r'd1::base_filter::not_in_pipeline\(\)', 'base_filter_not_in_pipeline()', 0),
+                  (r'new_fitler\.my_pipeline = this;', 'new_fitler->my_pipeline = self;', 0),
+                  (r'&new_fitler\b', 'new_fitler', 0),                                                         # address of a reference parameter (now a pointer)
+                  (r'new_fitler\.(is_serial|is_ordered|object_may_be_null)\(\)', r'base_filter_\1(new_fitler)', 0),
+                  (r'new \(allocate_memory\(sizeof\(input_buffer\)\)\) input_buffer\( ([^;]*) \);', r'NEW_input_buffer(\1);', 0),
+                  (r'new_fitler\.my_input_buffer->create_my_tls\(\);', 'STUB_create_my_tls(new_fitler->my_input_buffer);', 0)]
+    pout = []
+    pc = keep(pl.method(r'pipeline\(d1::task_group_context& cxt, std::size_t max_token\)', ctor=True))
+    pout.append(pl.convert(pc, 'pipeline_ctor', pre=PPRE, fcast=['Token']))
+    pout.append(pl.convert(pl.method(r'void fill_pipeline\(const d1::filter_node& root\)'), 'pipeline_fill_pipeline', pre=PPRE))
+    af = slice_block(PP, r'void pipeline::add_filter\( d1::base_filter& new_fitler \)')
+    sliced.append('%s:%d pipeline::add_filter' % (PP, af.line))
+    af.text = rw.sub(af.text, r'void pipeline::add_filter\(', 'void add_filter(', 1, 1, name='sig')
+    pout.append(pl.convert(af, 'pipeline_add_filter', pre=PPRE))
+    pp = slice_block(PP, r'void __TBB_EXPORTED_FUNC parallel_pipeline\(d1::task_group_context& cxt, std::size_t max_token, const d1::filter_node& fn\)')
+    sliced.append('%s:%d parallel_pipeline' % (PP, pp.line))
+    t = pp.text
+    t = rw.sub(t, r'void __TBB_EXPORTED_FUNC parallel_pipeline\(d1::task_group_context& cxt, std::size_t max_token, const d1::filter_node& fn\)',
+               'void r1_parallel_pipeline(struct tgc* cxt, size_t max_token, struct filter_node* fn)', 1, 1, name='sig (ref-param -> pointer)')
+    t = rw.sub(t, r'pipeline pipe\(cxt, max_token\);', 'struct pipeline pipe; pipeline_ctor(&pipe, cxt, max_token);', 0, name='object definition -> ctor call')
+    t = rw.sub(t, r'pipe\.fill_pipeline\(fn\);', 'pipeline_fill_pipeline(&pipe, fn);', 0, name='method')
+    t = rw.sub(t, r'd1::small_object_allocator alloc\{\};', 'small_object_allocator alloc = {0};', 0, name='alloc')
+    t = rw.sub(t, r'stage_task& st = \*alloc\.new_object<stage_task>\(pipe, alloc\);', 'struct stage_task* st = NEW_first_stage_task(&pipe, &alloc);', 0, name='new_object<stage_task> -> ctor')
+    t = rw.sub(t, r'r1::execute_and_wait\(st, cxt, pipe\.wait_ctx, cxt\);', 'STUB_execute_and_wait(st, cxt, &pipe.wait_ctx, cxt);', 0, name='execute_and_wait -> stub')
+    pout.append(rw.std(t))
+    se = slice_block(PP, r'void __TBB_EXPORTED_FUNC set_end_of_input\(d1::base_filter& bf\)')
+    sliced.append('%s:%d set_end_of_input' % (PP, se.line))
+    keep(se)
+    t = se.text
+    t = rw.sub(t, r'void __TBB_EXPORTED_FUNC set_end_of_input\(d1::base_filter& bf\)', 'void r1_set_end_of_input(struct base_filter* bf)', 1, 1, name='sig (ref-param -> pointer)')
+    t = rw.sub(t, r'\bbf\.', 'bf->', 0, name='ref-param use')
+    t = rw.sub(t, r'bf->(is_serial|object_may_be_null)\(\)', r'base_filter_\1(bf)', 0, name='method')
+    t = rw.sub(t, r'bf->my_input_buffer->end_of_input_tls_allocated', 'STUB_tls_allocated(bf->my_input_buffer)', 0, name='tls')
+    t = rw.sub(t, r'bf->my_input_buffer->set_my_tls_end_of_input\(\);', 'STUB_set_my_tls_end_of_input(bf->my_input_buffer);', 0, name='tls')
+    t = rw.asserts(t)
+    t = atom(rw.std(t), 'seoi')
+    seoi = t
+    ptxt = ''.join(_proto(x) for x in pout) + '\n'.join(pout)
+    bad = c_residue(ptxt + seoi)
+    if bad:
+        raise ExtractionBreak('pipeline.inc: C++ residue %s' % bad)
+    common.write(ctx, 'pipeline.inc', ptxt)
+    common.write(ctx, 'seoi.inc', seoi)
+    sliced += ['%s pipeline method' % x for x in pl.sliced]
+
+    # ---- closed world for the rely/guarantee job: every access to pipeline::input_tokens / end_of_input lies in a function whose sites carry the guarantee ----
+    src = load(PP)
+    msk = cxx2c.mask(src)
+    for mm in re.finditer(r'\b(input_tokens|end_of_input)\b', msk):
+        if any(sl.start <= mm.start() < sl.end for sl in proved):
+            continue
+        ln = src[src.rfind('\n', 0, mm.start()) + 1:src.find('\n', mm.start())]
+        if re.fullmatch(r'\s*std::atomic<(Token|bool)> (input_tokens|end_of_input);\s*', ln):
+            continue
+        raise ExtractionBreak('closed-world scan: %s is accessed outside the functions under rely/guarantee: line %d: %s' % (mm.group(1), cxx2c.line_of(src, mm.start()), ln.strip()))
+    for rel_dir in ('src', 'include'):
+        for root, _, files in os.walk(os.path.join(cxx2c.REPO, rel_dir)):
+            for fn in files:
+                fp = os.path.join(root, fn)
+                if fp.endswith('parallel_pipeline.cpp') or not fn.endswith(('.h', '.cpp')):
+                    continue
+                try:
+                    other = open(fp, errors='replace').read()
+                except OSError:
+                    continue
+                if re.search(r'\binput_tokens\b|(?<![\w])end_of_input\b(?!_)', cxx2c.mask(other)):
+                    raise ExtractionBreak('closed-world scan: %s mentions input_tokens / end_of_input' % fp)
+    rw.fired['closed-world scan (input_tokens, end_of_input)'] = 1
+    # task_info::reset
+    ti = CClass(PP, r'struct task_info \{', 'task_info', rw=rw)
+    ti.harvest_members(['my_object', 'my_token', 'my_token_ready', 'is_valid'])
+    tir = ti.convert(ti.method(r'void reset\(\)'), 'task_info_reset')
+    tir = rw.sub(tir, r'struct task_info\* self', 'task_info* self', 1, 1, name='typedef-name')
+    stage = tir + '\n' + '\n'.join(preds) + '\n' + nip + '\n' + ''.join(_proto(x) for x in out) + '\n'.join(out)
+    bad = c_residue(stage)
+    if bad:
+        raise ExtractionBreak('stage.inc: C++ residue %s' % bad)
+    common.write(ctx, 'stage.inc', stage)
+    sliced += ['%s stage_task/base_filter/task_info method' % x for x in st.sliced + bf.sliced + ti.sliced]
+    fired['stage_task'] = rw.fired
+    return st, pl, bf
+
+
+
+def extract_filters(ctx, sliced, fired, bf):
+    """concrete_filter<...>::operator() (the four specialisations), base_filter::set_end_of_input, token_helper<T*,false>, operator& and filter_node(x, y)."""
+    rw = Rewriter('filters')
+    text = load(PF)
+    if not re.search(r'class flow_control \{\s*bool is_pipeline_stopped = false;', text):
+        raise ExtractionBreak('flow_control layout changed')
+    if not re.search(r'void stop\(\) \{ is_pipeline_stopped = true; \}', text):
+        raise ExtractionBreak('flow_control::stop changed')
+    if not re.search(r'class concrete_filter<void, OutputType, Body>: public base_filter \{.*?concrete_filter\(unsigned int m, const Body& body\) :\s*base_filter\(m \| filter_may_emit_null\)', text, re.S):
+        raise ExtractionBreak('concrete_filter<void,Output,Body> constructor no longer sets filter_may_emit_null')
+    common.write(ctx, 'flow_control.inc', 'typedef struct flow_control { bool is_pipeline_stopped; } flow_control;\n#define FLOW_CONTROL_INIT {false}\n')
+    out = []
+    # token_helper<T*, false>: the pointer specialisation (items are passed as the pointer itself)
+    th = CClass(PF, r'struct token_helper<T\*, false> \{', 'ptr_helper', rw=rw, tbind={'pointer': 'void*', 'value_type': 'void*'})
+    for sig, nm in ((r'static pointer create_token\(const value_type & source\)', 'create_token'), (r'static value_type & token\(pointer & t\)', 'token'),
+                    (r'static void \* cast_to_void_ptr\(pointer ref\)', 'cast_to_void_ptr'), (r'static pointer cast_from_void_ptr\(void \* ref\)', 'cast_from_void_ptr')):
+        s = th.method(sig)
+        s.text = rw.sub(s.text, r'const value_type & source', 'value_type source', 0, name='const T& of a pointer type -> by value')
+        c = th.convert(s, 'ptr_helper_' + nm)
+        out.append(c)
+    out.append(bf.convert(bf.method(r'void set_end_of_input\(\)'), 'base_filter_set_end_of_input', pre=[(r'r1::set_end_of_input\(\*this\);', 'r1_set_end_of_input(self);', 0)]))
+    variants = (('mid', r'class concrete_filter: public base_filter \{', r'void\* operator\(\)\(void\* input\) override'),
+                ('in', r'class concrete_filter<void, OutputType, Body>: public base_filter \{', r'void\* operator\(\)\(void\*\) override'),
+                ('out', r'class concrete_filter<InputType, void, Body>: public base_filter \{', r'void\* operator\(\)\(void\* input\) override'),
+                ('inout', r'class concrete_filter<void, void, Body>: public base_filter \{', r'void\* operator\(\)\(void\*\) override'))
+    for v, cls, sig in variants:
+        s = slice_block(PF, sig, within=cls)
+        sliced.append('%s:%d concrete_filter[%s]::operator()' % (PF, s.line, v))
+        x = s.text
+        x = rw.sub(x, r'void\* operator\(\)\(void\*(?: input)?\) override', 'void* cf_%s_call(struct base_filter* self, void* input)' % v, 1, 1, name='sig')
+        x = rw.sub(x, r'\b(?:input|output)_helper::destroy_token\(', 'STUB_destroy_token(self, ', 0, name='destroy_token -> stub (memory, not C07)')
+        x = rw.sub(x, r'\b(?:input|output)_helper::', 'ptr_helper_', 0, name='bind-template(token_helper<T*,false>)')
+        x = rw.sub(x, r'std::move\(ptr_helper_token\(temp_input\)\)', '*ptr_helper_token(&temp_input)', 0, name='reference argument/result -> pointer')
+        x = rw.sub(x, r'tbb::detail::invoke\(my_body, ', 'STUB_body(self, ', 0, name='body -> stub')
+        x = rw.sub(x, r'\bmy_body\(control\)', 'STUB_input_body(self, &control)', 0, name='body -> stub')
+        x = rw.sub(x, r'flow_control control;', 'flow_control control = FLOW_CONTROL_INIT;', 0, name='default member initialiser')
+        x = rw.sub(x, r'(?<![\w.>])set_end_of_input\(\);', 'base_filter_set_end_of_input(self);', 0, name='method')
+        x = rw.sub(x, r'\b(input|output)_pointer\b', 'void*', 0, name='bind-template(pointer)')
+        x = rw.std(x)
+        out.append(x)
+    txt = '\n'.join(out)
+    bad = c_residue(txt)
+    if bad:
+        raise ExtractionBreak('filters.inc: C++ residue %s' % bad)
+    common.write(ctx, 'filters.inc', txt)
+    # operator& and filter_node(x, y)
+    s = slice_block(PH, r'filter<T,U> operator&\( const filter<T,V>& left, const filter<V,U>& right \)')
+    sliced.append('%s:%d operator&' % (PH, s.line))
+    x = s.text
+    x = rw.sub(x, r'filter<T,U> operator&\( const filter<T,V>& left, const filter<V,U>& right \)', 'struct filter_node* filter_and(struct filter* left, struct filter* right)', 1, 1, name='sig (ref-param -> pointer; filter<T,U> is its root pointer)')
+    x = rw.sub(x, r'\b(left|right)\.my_root', r'\1->my_root', 0, name='ref-param use')
+    x = rw.sub(x, r'filter_node_ptr\( new \(r1::allocate_memory\(sizeof\(filter_node\)\)\) filter_node\(([^;]*)\) \);', r'NEW_filter_node(\1);', 0, name='placement new -> allocation + constructor')
+    x = rw.std(rw.asserts(x))
+    fnode = CClass(PF, r'class filter_node \{', 'filter_node', rw=rw, tbind={'filter_node_ptr': 'struct filter_node*', 'std::atomic<std::intptr_t>': 'intptr_t'})
+    fnode.harvest_members(['ref_count', 'left', 'right'])
+    c0 = fnode.method(r'filter_node\(\) : ref_count\(0\)', ctor=True)
+    c0.text = cxx2c.cpp_resolve(c0.text, {'__TBB_TEST_FILTER_NODE_COUNT': None}, 'filter_node()')
+    c2 = fnode.method(r'filter_node\(const filter_node_ptr& x, const filter_node_ptr& y\)', ctor=True)
+    c2.text = rw.sub(c2.text, r'const filter_node_ptr& (\w)', r'filter_node_ptr \1', 0, name='const T& of a pointer type -> by value')
+    c2.text = rw.sub(c2.text, r': filter_node\(\)\{', '{ filter_node_ctor0(self);', 0, name='delegating constructor -> call')
+    t0 = fnode.convert(c0, 'filter_node_ctor0')
+    t2 = fnode.convert(c2, 'filter_node_ctor2')
+    common.write(ctx, 'fnode_struct.inc', fnode.struct_decl() + 'struct filter { struct filter_node* my_root; };\n')
+    ftxt = 'static struct filter_node* NEW_filter_node(struct filter_node* x, struct filter_node* y);\n' + t0 + t2 + x
+    bad = c_residue(ftxt)
+    if bad:
+        raise ExtractionBreak('fnode.inc: C++ residue %s' % bad)
+    common.write(ctx, 'fnode.inc', ftxt)
+    sliced += ['%s filter helper' % z for z in th.sliced + fnode.sliced]
+    fired['filters'] = rw.fired
 
 
 def build(ctx):
@@ -68,16 +352,46 @@ def build(ctx):
             target='input_buffer::try_put_token (modular: grow replaced by its proved contract)', source=PP),
         Job('ib.next_token', C, 'h_next', route='LF', timeout=600,
             target='input_buffer::try_to_spawn_task_for_next_token', source=PP),
+        Job('stage.step.input_serial', C, 'h_step', route='RG', defines=['STAGE', 'STEP', 'ONLY_START_SERIAL'], timeout=900,
+            target='stage_task::execute / execute_filter / try_spawn_stage_task / reset / finalize / ~stage_task / stage_task(pipeline&,alloc) + concrete_filter<void,..>::operator() + r1::set_end_of_input [input-stage task, serial input filter]', source=PP),
+        Job('stage.step.input_parallel', C, 'h_step', route='RG', defines=['STAGE', 'STEP', 'ONLY_START_PARALLEL'], timeout=900,
+            target='stage_task::execute / execute_filter / try_spawn_stage_task / reset / finalize / ~stage_task / stage_task(pipeline&,alloc) + concrete_filter<void,..>::operator() + r1::set_end_of_input [input-stage task, parallel input filter]', source=PP),
+        Job('stage.step.item', C, 'h_step', route='RG', defines=['STAGE', 'STEP', 'ONLY_MID'], timeout=900,
+            target='stage_task::execute / execute_filter / reset / finalize / ~stage_task [task carrying an item at any later filter]', source=PP),
+        Job('stage.release', C, 'h_release', route='LF', defines=['STAGE', 'RELEASE'], timeout=300,
+            target='input_buffer::try_to_spawn_task_for_next_token<stage_task> -> stage_task::spawn_stage_task -> stage_task(pipeline&,filter,info,alloc)', source=PP),
+        Job('stage.cancel', C, 'h_cancel', route='LF', defines=['STAGE', 'CANCEL'], target='stage_task::cancel / finalize / ~stage_task', source=PP),
+        Job('chain.add_filter', C, 'h_add_filter', route='LF', defines=['STAGE', 'CHAIN'], target='pipeline::add_filter', source=PP),
+        Job('chain.fill_pipeline', C, 'h_fill', route='LF', defines=['STAGE', 'CHAIN'], target='pipeline::fill_pipeline (inductive step over the filter tree) + add_filter', source=PP),
+        Job('chain.start', C, 'h_start', route='LF', defines=['STAGE', 'CHAIN'], target='parallel_pipeline() + pipeline::pipeline + fill_pipeline + stage_task(pipeline&,alloc)', source=PP),
+        Job('filter.call', C, 'h_cf', route='LF', defines=['STAGE', 'FILTERS'], target='concrete_filter<...>::operator() (4 specialisations) + base_filter::set_end_of_input + r1::set_end_of_input + token_helper<T*,false>', source=PF),
+        Job('filter.and', C, 'h_and', route='LF', defines=['STAGE', 'FILTERS'], target='operator&(filter, filter) + filter_node(x, y)', source=PH),
         Job('ib.ctor', C, 'h_ctor', route='LC', replace=['input_buffer_grow'], target='input_buffer::input_buffer + get_ordered_token', source=PP),
     ]
     return {
         'jobs': jobs, 'sliced': sliced, 'fired': fired,
-        'trusted': ['cache_aligned_allocator::allocate succeeds (alloc_nofail: the throwing exit is cut)', 'spin_mutex array_mutex serialises the three methods (C08 proves spin_mutex; LOCK_HELD() marks the section)',
-                    'stage_task::spawn_stage_task (stub recording its argument; that the spawned task runs once is C01)', 'buffer sizes up to 2^16 slots (MAXSZ, a stated precondition of the contracts)'],
-        'drops': ['scoped_lock declaration -> LOCK_HELD() ghost marker', 'ITT_NOTIFY -> RG_NOP()', 'references -> pointers', 'constructor init list -> assignments in declared order (TLS members skipped)'],
-        'not_decided': ['stage_task::execute_filter / try_spawn_stage_task token accounting (live-token bound)', 'end_of_input races with parallel first filters', 'thread-local end-of-input flags',
-                        'unordered serial buffers: which item is released (items carry no token there)', 'return of the call (wait_ctx, C01)'],
-        'assumptions': ['at most 2^16 outstanding tokens per buffer', 'tokens do not wrap around 2^64'],
+        'trusted': ['cache_aligned_allocator::allocate succeeds (alloc_nofail: the throwing exit is cut)',
+                    'spin_mutex array_mutex serialises the three input_buffer methods (C08 proves spin_mutex; LOCK_HELD() marks the section)',
+                    'buffer sizes up to 2^16 slots (MAXSZ, a stated precondition of the contracts)',
+                    'stage.step.*: STUB_try_put_token / STUB_try_to_spawn_task_for_next_token are models of the two input_buffer methods: exactly the post-conditions that ib.try_put_token / ib.next_token prove (token drawn once, run-now iff lowest outstanding number, low_token + 1); what the release does with the parked item is proved on the real code in stage.release',
+                    'r1::spawn (STUB_spawn: records the task; that a spawned task is executed exactly once is C01), small_object_allocator::new_object/delete_object (allocation + constructor call / destructor call), wait_context::reserve/release (a counter; that execute_and_wait returns when it reaches zero is C01)',
+                    'user filter bodies (STUB_body / STUB_input_body: arbitrary result, an input body may call flow_control::stop()); later filters of the chain return arbitrary objects',
+                    'basic_tls (the per-thread end-of-input flag is one boolean of the executing thread)',
+                    'chain.*: NEW_input_buffer is the post-condition of ib.ctor (empty ring, tokens start at 0, mode = argument); the recursive calls of fill_pipeline are the induction hypothesis (a subtree appends its own filters at the end of the chain)',
+                    'filter.*: token_helper<T*,false> (items passed as the pointer itself) is the instantiation; destroy_token is a stub (memory)'],
+        'drops': ['scoped_lock declaration -> LOCK_HELD() ghost marker', 'ITT_NOTIFY -> RG_NOP()', 'references -> pointers', 'constructor init list -> assignments in declared order (TLS members skipped)',
+                  'base class task_info of stage_task -> leading member `base`; d1::task base class dropped (no data used)', 'memory-order arguments dropped (SC)',
+                  'the implicit pipeline destructor at the end of parallel_pipeline() (memory only)', 'filter_node_ptr -> raw pointer (reference counting not modelled)', '`override`, `const`, `noexcept`, template headers'],
+        'not_decided': ['composition into a whole run: that a parked item is always released (while an item is parked at a serial filter some live task holds a lower number of that buffer, so the wait cannot reach zero with parked items) is argued from the per-step obligations (turn passed on exactly once after the invocation, released item restarted at its filter, one reserve/release per task), not mechanised',
+                        'weak memory: end_of_input is accessed relaxed and input_tokens with release/acquire; the census is proved under SC only',
+                        'exceptions thrown by a filter body and task_group_context cancellation (only: a cancelled task releases the wait exactly once and finalizes the item it still carries)',
+                        'a filter body that runs nested parallelism and thereby executes another input-stage task of the same pipeline on its own thread (thread-local end flag shared)',
+                        'fill_pipeline: only the inductive step (inner node / leaf); filter_node reference counts; filter_node_leaf::create_filter and the concrete_filter constructors (only: the <void,Output> constructor sets filter_may_emit_null, checked textually)',
+                        'token_helper specialisations other than T* (heap-allocated tokens, values overlaid on void*)', 'pipeline / input_buffer destructors',
+                        'that a spawned task runs exactly once and that execute_and_wait returns exactly when the wait context drops to zero (C01)', 'token wrap-around at 2^64'],
+        'assumptions': ['at most 2^16 outstanding tokens per buffer', 'tokens do not wrap around 2^64', 'sequentially consistent atomics on pipeline::input_tokens and pipeline::end_of_input; closed world (scan enforced at extraction: no other function touches the two words)',
+                        'max_number_of_live_tokens >= 1 and <= 2^62 (documented precondition; asserted by the pipeline constructor)', 'operands of operator& are non-empty filters (documented; asserted)',
+                        'stage.step preconditions are established by the other jobs: input-stage tasks are fresh (stage_task(pipeline&,alloc) / reset, proved in the same job and chain.start); a serial filter has a buffer of its own kind (chain.add_filter); a task carrying an item holds a token (stage.step post-condition / stage.release)'],
     }
 
 
@@ -85,7 +399,7 @@ def replay(ctx, jobname, failure):
     exe = native.build([os.path.join(HERE, 'c07_replay.cpp')], os.path.join(ctx.work, 'c07_replay'), flags=['-fno-access-control', '-I', os.path.join(ctx.repo, 'src')], link_tbb=True)
     rc, out = native.run([exe, jobname], timeout=120)
     rep = {'cmd': exe + ' ' + jobname, 'rc': rc, 'output': out[-1500:], 'reproduced': False, 'detail': 'native recipes found no failing sequence'}
-    m = re.search(r'REPRODUCED (.*)', out)
+    m = re.search(r'(?m)^REPRODUCED (.*)', out)
     if m:
         rep['reproduced'] = True
         rep['detail'] = m.group(1)
